@@ -58,6 +58,8 @@ type RefEVM struct {
 	Contracts map[string]bool // every address that ever held code (hex, upper case)
 	Snaps     map[int64]*state.StateDB // reference state after each block (for vm_call at past heights)
 	Destroyed map[string]bool
+
+	usedBlockHash bool
 }
 
 func NewRefEVM() *RefEVM {
@@ -100,7 +102,10 @@ func (r *RefEVM) blockCtx() vm.BlockContext {
 			db.SubBalance(s, amt)
 			db.AddBalance(d, amt)
 		},
-		GetHash:     func(uint64) common.Hash { return common.Hash{} },
+		GetHash: func(uint64) common.Hash {
+			r.usedBlockHash = true // the properties do not fix what BLOCKHASH answers: the answer of such a call is not compared
+			return common.Hash{}
+		},
 		Coinbase:    r.coinbase,
 		BlockNumber: big.NewInt(r.height),
 		Time:        big.NewInt(r.time),
@@ -120,6 +125,7 @@ type refResult struct {
 	CreatedAll []string // every account that received code in this transaction
 	Touched []common.Address
 	Burn    *big.Int // value destroyed by self-destruct-to-self
+	UsedBlockHash bool // BLOCKHASH was executed
 }
 
 // syncIn overwrites balances and nonces of all model accounts.
@@ -167,6 +173,8 @@ func (r *RefEVM) exec(ws *MState, from, to []byte, nonce, gas uint64, price, amt
 	msg := ethtypes.NewMessage(fromA, toA, nonce, new(big.Int).Set(amt), gas, new(big.Int).Set(price), big.NewInt(0), big.NewInt(0), data, nil, false)
 	e := vm.NewEVM(r.blockCtx(), core.NewEVMTxContext(msg), rs, r.cfg, vm.Config{NoBaseFee: true})
 	res := &refResult{Burn: new(big.Int)}
+	r.usedBlockHash = false
+	defer func() { res.UsedBlockHash = r.usedBlockHash }()
 	rs.t(fromA)
 	if toA != nil {
 		rs.t(*toA)
@@ -462,7 +470,7 @@ func (m *Model) applyEVMTx(ws *MState, ti *TxInfo, r *abci.ResponseDeliverTx, h 
 			a.Code = ti.Hash
 		}
 	}
-	if hx(wantRet) != hx(r.Data) && !(ref.Created != "" && hx(ref.Ret) == hx(r.Data)) {
+	if hx(wantRet) != hx(r.Data) && !(ref.Created != "" && hx(ref.Ret) == hx(r.Data)) && !ref.UsedBlockHash {
 		// for a deployment the application answers with the new address (its convention); the deployed code would be fine too
 		issue("C17", "evm-return-data-mismatch", fmt.Sprintf("reference %x, application %x", wantRet, r.Data))
 	}
